@@ -84,6 +84,8 @@ def run(model, rep):
     # the gates pin everything when their switch is False (abstract evaluation on descriptors and on a real tree)
     gate_enum(model, rep)
     gate_tree(model, rep, 'C09.GATE', False, False, [], lambda kind, name: True, 'permission gates with both rename switches off (what minify() passes for a tainted module)', 'C09.GATE|tree')
+    from . import rename_e2e
+    rename_e2e.run(model, rep, 'C09.GATE', only=('renaming off',))   # both switches False (what a tainted module gets): the whole renaming pipeline changes nothing
     rep.floor('C09.GATE', 20)
     rep.floor('C09.ORD', 3)
 
